@@ -1,7 +1,197 @@
 package main
 
+import (
+	"bytes"
+	"context"
+	"encoding/json"
+	"fmt"
+	"os"
+	"os/exec"
+	"path/filepath"
+	"regexp"
+	"strings"
+	"time"
+)
+
+// Adapter turns a counterexample of an obligation into an executable test on the real code.
+type Adapter struct {
+	Function   string            `json:"function"`   // regexp on the function key
+	Obligation string            `json:"obligation"` // regexp on the obligation name
+	Template   string            `json:"template"`   // file under /verif/replay/adapters
+	Dir        string            `json:"dir"`        // directory (relative to /repo) the test file is overlaid into
+	Observe    map[string]string `json:"observe"`    // name -> contract-language expression over the entry state
+	Mode       string            `json:"mode"`       // free text passed to the test ("panic", "ensures", …)
+}
+
+func loadAdapters() []Adapter {
+	var as []Adapter
+	data, err := os.ReadFile(filepath.Join(verifRoot(), "replay", "adapters.json"))
+	if err != nil {
+		return nil
+	}
+	if err := json.Unmarshal(data, &as); err != nil {
+		fmt.Fprintln(os.Stderr, "replay/adapters.json:", err)
+		return nil
+	}
+	return as
+}
+
+func findAdapter(as []Adapter, fn, obl string) *Adapter {
+	for i := range as {
+		a := &as[i]
+		if ok, _ := regexp.MatchString("^(?:"+a.Function+")$", fn); !ok {
+			continue
+		}
+		if ok, _ := regexp.MatchString("^(?:"+a.Obligation+")$", obl); !ok {
+			continue
+		}
+		return a
+	}
+	return nil
+}
+
+// observeTerms evaluates the adapter's observables in the entry state of the function's encoding.
+func observeTerms(e *Enc, a *Adapter) (names, terms []string, errs []string) {
+	for _, n := range sortedKeys(a.Observe) {
+		ex, err := parseExpr(a.Observe[n])
+		if err != nil {
+			errs = append(errs, err.Error())
+			continue
+		}
+		env := e.envFor(e.top, e.top.entry)
+		env.fr = nil
+		v, err := env.eval(ex)
+		if err != nil {
+			errs = append(errs, n+": "+err.Error())
+			continue
+		}
+		if len(v.L) != 1 {
+			errs = append(errs, n+": not scalar")
+			continue
+		}
+		names = append(names, n)
+		terms = append(terms, v.L[0].T)
+	}
+	return
+}
+
+// parseGetValue parses "((t1 v1) (t2 v2) ...)" positionally.
+func parseGetValue(out string, n int) []string {
+	toks := tokenizeSexp(out)
+	// find first "(" "(" sequence
+	for i := 0; i+1 < len(toks); i++ {
+		if toks[i] == "(" && toks[i+1] == "(" {
+			j := i + 1
+			var vals []string
+			for j < len(toks) && toks[j] == "(" {
+				// pair: ( term value )
+				k := j + 1
+				k = skipSexp(toks, k) // term
+				v0 := k
+				k = skipSexp(toks, k) // value
+				val := strings.Join(toks[v0:k], " ")
+				val = strings.ReplaceAll(strings.ReplaceAll(val, "( ", "("), " )", ")")
+				vals = append(vals, val)
+				if k < len(toks) && toks[k] == ")" {
+					k++
+				}
+				j = k
+			}
+			if len(vals) == n {
+				return vals
+			}
+			return nil
+		}
+	}
+	return nil
+}
+
+type replayJob struct {
+	adapter *Adapter
+	names   []string
+	values  []string
+}
+
+var replays = map[*Obligation]*replayJob{}
+
 // tryReplay runs the counterexample of obligation o on the real code if an adapter exists.
 // Returns (reproduced, output). Empty output means no adapter.
 func tryReplay(prop string, o *Obligation, model map[string]string, replayPath string) (bool, string) {
-	return false, ""
+	rj := replays[o]
+	if rj == nil || rj.values == nil {
+		return false, ""
+	}
+	vals := map[string]string{}
+	for i, n := range rj.names {
+		v := rj.values[i]
+		if d, ok := modelInt(v); ok {
+			v = d
+		}
+		vals[n] = v
+	}
+	return runReplay(rj.adapter, prop, o.Func, o.Name, o.Kind, vals, replayPath)
+}
+
+func runReplay(a *Adapter, prop, fn, obl, kind string, vals map[string]string, replayPath string) (bool, string) {
+	root := verifRoot()
+	tmpl, err := os.ReadFile(filepath.Join(root, "replay", "adapters", a.Template))
+	if err != nil {
+		return false, "adapter template missing: " + err.Error()
+	}
+	scratch, err := os.MkdirTemp("", "govc-replay-")
+	if err != nil {
+		return false, err.Error()
+	}
+	defer os.RemoveAll(scratch)
+	testFile := filepath.Join(scratch, "zz_verif_replay_test.go")
+	os.WriteFile(testFile, tmpl, 0o644)
+	in := map[string]interface{}{"property": prop, "function": fn, "obligation": obl, "kind": kind, "mode": a.Mode, "values": vals}
+	inFile := filepath.Join(scratch, "input.json")
+	data, _ := json.MarshalIndent(in, "", " ")
+	os.WriteFile(inFile, data, 0o644)
+	repo := "/repo"
+	if r := os.Getenv("VERIF_REPO"); r != "" {
+		repo = r
+	}
+	target := filepath.Join(repo, a.Dir, "zz_verif_replay_test.go")
+	ov := map[string]interface{}{"Replace": map[string]string{target: testFile}}
+	ovData, _ := json.Marshal(ov)
+	ovFile := filepath.Join(scratch, "overlay.json")
+	os.WriteFile(ovFile, ovData, 0o644)
+	ctx, cancel := context.WithTimeout(context.Background(), 15*time.Minute)
+	defer cancel()
+	// the overlaid package directory need not exist on disk: compile the test binary, then run it from scratch
+	bin := filepath.Join(scratch, "replay.test")
+	env := append(os.Environ(), "GOFLAGS=-mod=mod", "GOPROXY=off", "GOSUMDB=off", "GOTOOLCHAIN=local", "VERIF_REPLAY_INPUT="+inFile)
+	var out bytes.Buffer
+	build := exec.CommandContext(ctx, "go", "test", "-c", "-overlay", ovFile, "-vet=off", "-o", bin, "./"+a.Dir)
+	build.Dir = repo
+	build.Env = env
+	build.Stdout = &out
+	build.Stderr = &out
+	if err := build.Run(); err != nil {
+		return false, "replay test does not build: " + truncStr(out.String(), 3000)
+	}
+	cmd := exec.CommandContext(ctx, bin, "-test.run", "^TestVerifReplay$", "-test.v", "-test.timeout", "300s")
+	cmd.Dir = scratch
+	cmd.Env = env
+	cmd.Stdout = &out
+	cmd.Stderr = &out
+	_ = cmd.Run()
+	txt := out.String()
+	// keep the replay input next to the replay record so that bin/replay can re-run it
+	if replayPath != "" {
+		os.WriteFile(strings.TrimSuffix(replayPath, ".json")+".input.json", data, 0o644)
+	}
+	var keep []string
+	for _, l := range strings.Split(txt, "\n") {
+		if strings.Contains(l, "REPLAY") || strings.Contains(l, "FAIL") || strings.Contains(l, "panic") || strings.Contains(l, "ok ") {
+			keep = append(keep, l)
+		}
+	}
+	res := strings.Join(keep, "\n")
+	if res == "" {
+		res = truncStr(txt, 4000)
+	}
+	return strings.Contains(txt, "REPLAY-REPRODUCED"), res
 }
